@@ -7,6 +7,10 @@
     violations   -> `-` | space separated, sorted `unguarded:<field>@<func>` of every run-phase table entry that
                     violates the discipline (allow-listed ones included: the harness classifies them)
     unbalanced   -> `-` | space separated `<how>:<lock>@<func>` for lock-balance entries that are leaked / unheld
+    reentrant    -> `-` | space separated `reentrant-lock:<lock>@<caller>-><callee>`: calls made while holding <lock> to a
+                    function that (transitively) acquires it again
+    cachewrites  -> `-` | space separated `cache-object-mutated:<lister|event>@<func>`: writes through objects obtained from a
+                    lister / informer cache
     funcs        -> space separated `<func>@<file:line>` of every function that has a table entry or a call site
     check <guards> <threads>
                  -> disc=<b> race=<none|i,j,x|unknown> states=<n>
@@ -105,6 +109,14 @@ def handle (line : String) : String :=
       let how := match b.how with | .leaked => "leaked" | .unheld => "unheld" | .deferred => "deferred" | .matched => "matched"
       s!"{how}:{lockNames.getD b.lock "?"}@{funcNames.getD b.fn "?"}"
     if strs.isEmpty then "-" else Galaxy.Drv.joinWith " " (sortStrs strs.eraseDups)
+  | ["reentrant"] =>
+    let v := (reentrantSites table acqTrans selfReacquire).map fun (l, caller, callee) =>
+      s!"reentrant-lock:{lockNames.getD l "?"}@{funcNames.getD caller "?"}->{funcNames.getD callee "?"}"
+    if v.isEmpty then "-" else Galaxy.Drv.joinWith " " (sortStrs v.eraseDups)
+  | ["cachewrites"] =>
+    let v := (cacheUses.filter fun u => u.kind == .written).map fun u =>
+      s!"cache-object-mutated:{u.what}@{funcNames.getD u.fn "?"}"
+    if v.isEmpty then "-" else Galaxy.Drv.joinWith " " (sortStrs v.eraseDups)
   | ["funcs"] =>
     let used := ((table.accesses.map (·.fn)) ++ (table.sites.map (·.callee)) ++ (table.sites.map (·.caller))).eraseDups
     let strs := used.map fun f => s!"{funcNames.getD f "?"}@{funcPos.getD f "?"}"
